@@ -40,6 +40,9 @@ UNITS = {
     # length/time^6, so a check that compares type *names* cannot tell these apart)
     "km/s/day5": (1, -6, 0, 0), "m/s7": (1, -7, 0, 0), "km/s/day6": (1, -7, 0, 0), "km/s/day7": (1, -8, 0, 0),
     "m/s9": (1, -9, 0, 0), "km/s/day8": (1, -9, 0, 0), "km/s/day9": (1, -10, 0, 0),
+    # logarithmic ("function") units: equivalent to a velocity / time for astropy's is_equivalent, but a Normal in dex or mag
+    # is not a Normal in the quantity; for the validator they are of another dimension
+    "dex(km / s)": (101, -101, 0, 0), "mag(km / s)": (102, -102, 0, 0), "dex(d)": (0, 103, 0, 0),
     "kg m/s/day6": (1, -7, 0, 1), "km2/s/day7": (2, -8, 0, 0), "km/day9": (1, -9, 0, 0), "rad/s8": (0, -8, 1, 0),
 }
 BY_DIM = {}
@@ -47,10 +50,10 @@ for _u, _d in UNITS.items():
     BY_DIM.setdefault(_d, []).append(_u)
 
 OTHER_RV = ["uniform", "halfnormal", "studentt", "truncnormal", "lognormal", "beta", "uniformlog", "laplace", "mvnormal"]
-KIND_OF = dict(normal="normal", fcm="fcm", normal_dep_sigma="normalDep", normal_dep_mu="normalDep", determ="unnamedOp", expr="unnamedOp", const="noOwner", pyfloat="noOwner",
+KIND_OF = dict(normal="normal", fcm="fcm", normal_dep_sigma="normalDep", normal_dep_mu="normalDep", normal_dep_symbolic="normalDep", determ="unnamedOp", expr="unnamedOp", const="noOwner", pyfloat="noOwner",
                fake="notTensor", **{k: "otherRV" for k in OTHER_RV})
 KIND_OF["uniformlog"] = "unnamedOp"     # thejoker's own UniformLogRV has no `_print_name`
-REGISTERS = {"normal", "fcm", "determ", "normal_dep_sigma", "normal_dep_mu"} | set(OTHER_RV)     # kinds that enter model.named_vars
+REGISTERS = {"normal", "fcm", "determ", "normal_dep_sigma", "normal_dep_mu", "normal_dep_symbolic"} | set(OTHER_RV)     # kinds that enter model.named_vars
 
 
 _TREND = re.compile(r"v(0|[1-9][0-9]*)")
@@ -112,6 +115,8 @@ def make_var(name, dk, models):
             return pm.Normal(name, 0.5, 10.0)
         if dk == "normal_dep_sigma":      # a Normal whose width is a function of another random variable: not independent
             return pm.Normal(name, 0.0, 1.0 + pm.HalfNormal(aux, 3.0))
+        if dk == "normal_dep_symbolic":   # the random parent is a pymc "symbolic" RV (Truncated): its RandomVariable sits in an inner graph
+            return pm.Normal(name, 0.0, 1.0 + pm.Truncated(aux, pm.LogNormal.dist(0.0, 1.0), lower=0.1, upper=10.0))
         if dk == "normal_dep_mu":         # a Normal whose mean is another random variable (hyper-prior)
             return pm.Normal(name, pm.Normal(aux, 0.0, 2.0), 5.0)
         if dk == "fcm":
@@ -155,7 +160,7 @@ def attach_unit(v, unit, name):
     import thejoker.units as xu
     if unit is None:
         return v
-    un = u.Unit(unit)
+    un = {"dex(km / s)": u.dex(u.km / u.s), "mag(km / s)": u.mag(u.km / u.s), "dex(d)": u.dex(u.day)}.get(unit) or u.Unit(unit)
     if isinstance(v, Fake):
         setattr(v, xu.UNIT_ATTR_NAME, un)
         return v
@@ -352,7 +357,10 @@ def judge_prior(ctx, g, spec, tag):
 
 
 DIM_POOL = sorted(set(UNITS.values()))
-LIN_BAD_KINDS = OTHER_RV + ["normal_dep_sigma", "normal_dep_mu", "determ", "expr", "const", "pyfloat", "fake"]
+# JokerPrior.default's scalar arguments (P_min, P0, sigma_K0, sigma_v, ...) are not exercised with logarithmic units (its
+# quantity_input validation accepts them; recorded in DESIGN 7.13 as not covered): physical dimensions only
+PHYS_DIM_POOL = [d_ for d_ in DIM_POOL if max(abs(x_) for x_ in d_) < 50]
+LIN_BAD_KINDS = OTHER_RV + ["normal_dep_sigma", "normal_dep_mu", "normal_dep_symbolic", "determ", "expr", "const", "pyfloat", "fake"]
 
 
 def copy_spec(spec):
@@ -531,11 +539,11 @@ def default_mutations(d, rng):
     for key, dim in (("P_min", (0, 1, 0, 0)), ("P_max", (0, 1, 0, 0)), ("sigma_K0", (1, -1, 0, 0)), ("P0", (0, 1, 0, 0))):
         mut(f"{key}:missing", **{key: None})
         mut(f"{key}:bare", **{key: "bare"})
-        for dd in DIM_POOL:
+        for dd in PHYS_DIM_POOL:
             if dd != dim:
                 mut(f"{key}:dim", **{key: str(rng.choice(BY_DIM[dd]))})
     mut("s:bare", s="bare")
-    for dd in DIM_POOL:
+    for dd in PHYS_DIM_POOL:
         mut("s:dim" if dd != (1, -1, 0, 0) else "s:ok", s=str(rng.choice(BY_DIM[dd])))
     mut("s:tensor", s=dict(tensor=True, unit="km/s", dk="lognormal"))
     mut("s:tensor-nounit", s=dict(tensor=True, unit=None, dk="lognormal"))
@@ -551,7 +559,7 @@ def default_mutations(d, rng):
         mut("sigma_v:short", sigma_v=dict(form=form, items=base_items[:-1]))
         mut("sigma_v:long", sigma_v=dict(form=form, items=base_items + ["km/s"]))
         for i in range(len(base_items)):
-            for dd in DIM_POOL:
+            for dd in PHYS_DIM_POOL:
                 it = list(base_items)
                 it[i] = str(rng.choice(BY_DIM[dd]))
                 mut("sigma_v:item-dim" if dd != (1, -1 - i, 0, 0) else "sigma_v:item-ok", sigma_v=dict(form=form, items=it))
